@@ -219,9 +219,33 @@ fn any_state<M: AnyMsg>() -> PState<M> {
     }
 }
 
-/// Runs one event on the bare probe and on the adapter around it and compares everything
-/// observable: arguments seen (recorded in the state), resulting state, Borrowed/Owned (no-op
-/// detection), commands in order, name.
+/// Start-up on the bare probe and on the adapter around it: same arguments seen (recorded in
+/// the state), same initial state, same commands in the same order.
+fn check_start<M, W>(
+    script: (u8, u8, u8),
+    wrap_a: fn(P<M>) -> W,
+    unwrap_s: fn(&W::State) -> &PState<M>,
+) where
+    M: AnyMsg,
+    W: Actor<Msg = M, Timer = u8, Random = u8>,
+{
+    let p: P<M> = P::any(script.0, script.1, script.2);
+    let id = Id::from(kani::any::<usize>());
+    let w = wrap_a(p.clone());
+    let mut od: Out<P<M>> = Out::new();
+    let mut ow: Out<W> = Out::new();
+    let sd = p.on_start(id, &mut od);
+    let sw = w.on_start(id, &mut ow);
+    assert!(unwrap_s(&sw) == &sd, "C15 on_start: same arguments seen and same initial state");
+    assert!(out_eq(&od, &ow), "C15 on_start: same commands in the same order");
+    if script.0 == 2 {
+        kani::cover!(od.len() == 2, "two commands emitted");
+    }
+}
+
+/// Runs one event (1 msg, 2 timeout, 3 random) on the bare probe and on the adapter around it
+/// and compares everything observable: arguments seen (recorded in the state), resulting state,
+/// Borrowed/Owned (no-op detection), commands in order.
 fn check_step<M, W>(
     kind: u8,
     script: (u8, u8, u8),
@@ -241,62 +265,69 @@ fn check_step<M, W>(
     let w = wrap_a(p.clone());
     let mut od: Out<P<M>> = Out::new();
     let mut ow: Out<W> = Out::new();
-    if kind == 0 {
-        let sd = p.on_start(id, &mut od);
-        let sw = w.on_start(id, &mut ow);
-        assert!(unwrap_s(&sw) == &sd, "C15 on_start: same arguments seen and same initial state");
-    } else {
-        let ws0 = wrap_s(s0.clone());
-        let mut cd = Cow::Borrowed(&s0);
-        let mut cw = Cow::Borrowed(&ws0);
-        match kind {
-            1 => {
-                p.on_msg(id, &mut cd, src, msg.clone(), &mut od);
-                w.on_msg(id, &mut cw, src, msg, &mut ow);
-            }
-            2 => {
-                p.on_timeout(id, &mut cd, &t, &mut od);
-                w.on_timeout(id, &mut cw, &t, &mut ow);
-            }
-            _ => {
-                p.on_random(id, &mut cd, &t, &mut od);
-                w.on_random(id, &mut cw, &t, &mut ow);
-            }
-        }
-        let owned_d = matches!(cd, Cow::Owned(_));
-        let owned_w = matches!(cw, Cow::Owned(_));
-        match kind {
-            1 => {
-                assert!(owned_d == owned_w, "C15 on_msg: state written exactly when the wrapped actor writes it");
-                assert!(unwrap_s(&cw) == &*cd, "C15 on_msg: same arguments seen and same resulting state");
-            }
-            2 => {
-                assert!(owned_d == owned_w, "C15 on_timeout: state written exactly when the wrapped actor writes it");
-                assert!(unwrap_s(&cw) == &*cd, "C15 on_timeout: same arguments seen and same resulting state");
-            }
-            _ => {
-                assert!(owned_d == owned_w, "C15 on_random: state written exactly when the wrapped actor writes it");
-                assert!(unwrap_s(&cw) == &*cd, "C15 on_random: same arguments seen and same resulting state");
-            }
-        }
-        kani::cover!(owned_d, "wrapped actor changed its state");
-        kani::cover!(!owned_d && od.len() == 0, "wrapped actor did nothing (no-op)");
-    }
+    let ws0 = wrap_s(s0.clone());
+    let mut cd = Cow::Borrowed(&s0);
+    let mut cw = Cow::Borrowed(&ws0);
     match kind {
-        0 => assert!(out_eq(&od, &ow), "C15 on_start: same commands in the same order"),
-        1 => assert!(out_eq(&od, &ow), "C15 on_msg: same commands in the same order"),
-        2 => assert!(out_eq(&od, &ow), "C15 on_timeout: same commands in the same order"),
-        _ => assert!(out_eq(&od, &ow), "C15 on_random: same commands in the same order"),
+        1 => {
+            p.on_msg(id, &mut cd, src, msg.clone(), &mut od);
+            w.on_msg(id, &mut cw, src, msg, &mut ow);
+        }
+        2 => {
+            p.on_timeout(id, &mut cd, &t, &mut od);
+            w.on_timeout(id, &mut cw, &t, &mut ow);
+        }
+        _ => {
+            p.on_random(id, &mut cd, &t, &mut od);
+            w.on_random(id, &mut cw, &t, &mut ow);
+        }
+    }
+    let owned_d = matches!(cd, Cow::Owned(_));
+    let owned_w = matches!(cw, Cow::Owned(_));
+    match kind {
+        1 => {
+            assert!(owned_d == owned_w, "C15 on_msg: state written exactly when the wrapped actor writes it");
+            assert!(unwrap_s(&cw) == &*cd, "C15 on_msg: same arguments seen and same resulting state");
+            assert!(out_eq(&od, &ow), "C15 on_msg: same commands in the same order");
+        }
+        2 => {
+            assert!(owned_d == owned_w, "C15 on_timeout: state written exactly when the wrapped actor writes it");
+            assert!(unwrap_s(&cw) == &*cd, "C15 on_timeout: same arguments seen and same resulting state");
+            assert!(out_eq(&od, &ow), "C15 on_timeout: same commands in the same order");
+        }
+        _ => {
+            assert!(owned_d == owned_w, "C15 on_random: state written exactly when the wrapped actor writes it");
+            assert!(unwrap_s(&cw) == &*cd, "C15 on_random: same arguments seen and same resulting state");
+            assert!(out_eq(&od, &ow), "C15 on_random: same commands in the same order");
+        }
+    }
+    kani::cover!(owned_d, "wrapped actor changed its state");
+    if script.0 == 0 {
+        kani::cover!(!owned_d && od.len() == 0, "wrapped actor did nothing (no-op)");
     }
     if script.0 == 2 {
         kani::cover!(od.len() == 2, "two commands emitted");
     }
 }
 
-/// All script shapes exercised per (adapter, event): none, each single kind, and ordered pairs
-/// that mix every kind with a different neighbour (so reordering, dropping or duplicating a
-/// command is visible).
-fn check_scripts<M, W>(
+/// All script shapes exercised per (adapter, event): none, and ordered pairs that mix every
+/// command kind with a different neighbour (so reordering, dropping or duplicating a command is
+/// visible).
+const SCRIPTS: [(u8, u8, u8); 5] = [(0, 0, 0), (2, 0, 1), (2, 2, 0), (2, 3, 2), (2, 1, 3)];
+
+fn check_start_scripts<M, W>(wrap_a: fn(P<M>) -> W, unwrap_s: fn(&W::State) -> &PState<M>)
+where
+    M: AnyMsg,
+    W: Actor<Msg = M, Timer = u8, Random = u8>,
+{
+    check_start::<M, W>(SCRIPTS[0], wrap_a, unwrap_s);
+    check_start::<M, W>(SCRIPTS[1], wrap_a, unwrap_s);
+    check_start::<M, W>(SCRIPTS[2], wrap_a, unwrap_s);
+    check_start::<M, W>(SCRIPTS[3], wrap_a, unwrap_s);
+    check_start::<M, W>(SCRIPTS[4], wrap_a, unwrap_s);
+}
+
+fn check_event_scripts<M, W>(
     kind: u8,
     wrap_a: fn(P<M>) -> W,
     wrap_s: fn(PState<M>) -> W::State,
@@ -305,11 +336,11 @@ fn check_scripts<M, W>(
     M: AnyMsg,
     W: Actor<Msg = M, Timer = u8, Random = u8>,
 {
-    check_step::<M, W>(kind, (0, 0, 0), wrap_a, wrap_s, unwrap_s);
-    check_step::<M, W>(kind, (2, 0, 1), wrap_a, wrap_s, unwrap_s);
-    check_step::<M, W>(kind, (2, 2, 0), wrap_a, wrap_s, unwrap_s);
-    check_step::<M, W>(kind, (2, 3, 2), wrap_a, wrap_s, unwrap_s);
-    check_step::<M, W>(kind, (2, 1, 3), wrap_a, wrap_s, unwrap_s);
+    check_step::<M, W>(kind, SCRIPTS[0], wrap_a, wrap_s, unwrap_s);
+    check_step::<M, W>(kind, SCRIPTS[1], wrap_a, wrap_s, unwrap_s);
+    check_step::<M, W>(kind, SCRIPTS[2], wrap_a, wrap_s, unwrap_s);
+    check_step::<M, W>(kind, SCRIPTS[3], wrap_a, wrap_s, unwrap_s);
+    check_step::<M, W>(kind, SCRIPTS[4], wrap_a, wrap_s, unwrap_s);
 }
 
 fn check_name<M: AnyMsg, W: Actor>(wrap_a: fn(P<M>) -> W) {
@@ -408,22 +439,22 @@ macro_rules! adapter_harnesses {
         #[kani::proof]
         #[kani::unwind(4)]
         fn $start() {
-            check_scripts::<$m, $w>(0, $a, $s, $u);
+            check_start_scripts::<$m, $w>($a, $u);
         }
         #[kani::proof]
         #[kani::unwind(4)]
         fn $msg() {
-            check_scripts::<$m, $w>(1, $a, $s, $u);
+            check_event_scripts::<$m, $w>(1, $a, $s, $u);
         }
         #[kani::proof]
         #[kani::unwind(4)]
         fn $timeout() {
-            check_scripts::<$m, $w>(2, $a, $s, $u);
+            check_event_scripts::<$m, $w>(2, $a, $s, $u);
         }
         #[kani::proof]
         #[kani::unwind(4)]
         fn $random() {
-            check_scripts::<$m, $w>(3, $a, $s, $u);
+            check_event_scripts::<$m, $w>(3, $a, $s, $u);
         }
         #[kani::proof]
         #[kani::unwind(4)]
